@@ -67,7 +67,8 @@ def cases(rng, tier):
                     "method": m, "challenge_method": m or "plain", "verifier": v, "has_challenge": has_ch, "tv": tv,
                     # the challenge as the authorization request carries it: the transform, or an altered / padded / re-encoded one
                     "chmut": rng.choice([None, None, None, "pad", "pad2", "trunc", "flip", "b64std", "space", "veq"]),
-                    "replay": rng.choice([None, "right", "wrong", "none"])})
+                    "replay": rng.choice([None, "right", "wrong", "none"]),
+                    "via": rng.choice(["query", "query", "request", "request_uri"])})
     for _ in range(40 * n):
         out.append({"t": "rp", "method": rng.choice(["S256", "S384", "S512"]), "len": rng.choice([43, 64, 128]), "mset": rng.choice(["all", "s256", "s384_512"]),
                     "essential": rng.random() < 0.5})
@@ -97,7 +98,14 @@ def _token_verifier(c):
     return v
 
 
-def _run(s, client, challenge, method, verifier, replay=None):
+class _Fetched:
+    def __init__(self, text):
+        self.status_code, self.status, self.text, self.headers = 200, 200, text, {"content-type": "application/jwt"}
+
+
+def _run(s, client, challenge, method, verifier, replay=None, via="query"):
+    """via: how the authorization request travels — plain parameters, or inside a signed request object passed by value / by reference
+    (the provider fetches it): the PKCE values are then inside the object only"""
     az, tk = s.get_endpoint("authorization"), s.get_endpoint("token")
     args = dict(client_id=client, redirect_uri=RED, scope=["openid"], state="st", response_type="code", nonce="n")
     if challenge is not None:
@@ -105,6 +113,19 @@ def _run(s, client, challenge, method, verifier, replay=None):
     if method is not None:
         args["code_challenge_method"] = method
     o = {}
+    if via != "query":
+        from cryptojwt.jwt import JWT
+        from cryptojwt.key_jar import KeyJar
+        kj = KeyJar()
+        kj.add_symmetric(client, s.context.cdb[client]["client_secret"])
+        ro = JWT(key_jar=kj, iss=client, sign_alg="HS256", lifetime=300).pack(dict(args), aud=s.context.issuer)
+        args = dict(client_id=client, response_type="code", scope=["openid"], redirect_uri=RED)
+        if via == "request":
+            args["request"] = ro
+        else:
+            uri = "https://%s.example.com/request_objects/1" % client.replace("_", "-")
+            args["request_uri"] = uri
+            s.context.httpc = lambda method, url, **kw: _Fetched(ro) if url == uri else _Fetched("")
     try:
         pr = az.parse_request(AuthorizationRequest(**args).to_dict())
     except Exception as e:
@@ -164,7 +185,7 @@ def impl(c):
             ch = {"pad": ch + "=", "pad2": ch + "==", "trunc": ch[:-1], "flip": ("A" if ch[:1] != "A" else "B") + ch[1:],
                   "b64std": ch.replace("-", "+").replace("_", "/"), "space": ch + " ", "veq": ch}[cm]
         ch = ch or None            # a blank parameter is not part of a message at all
-        o = _run(s, c["client"], ch, c["method"], _token_verifier(c) or None, replay=c.get("replay"))
+        o = _run(s, c["client"], ch, c["method"], _token_verifier(c) or None, replay=c.get("replay"), via=c.get("via", "query"))
         o["challenge"] = ch
         return o
     # relying-party add-on produces the pair
@@ -256,7 +277,7 @@ def known_key(c, v, known):
 
 
 def classify(c, obs):
-    return f"{c['t']}:{obs['authz']}:{obs.get('token')}"
+    return f"{c['t']}:{c.get('via', '-')}:{obs['authz']}:{obs.get('token')}"
 
 
 def nontrivial(c, obs):
